@@ -469,7 +469,9 @@ class Executor:
                 q = z3.BitVec('divq#%d' % self.counter, bits)
                 r = z3.BitVec('divr#%d' % self.counter, bits)
                 d = z3.BitVecVal(b.v, bits)
-                self.solver.add(z3.ULT(r, d), z3.ULE(q, z3.BitVecVal(((1 << bits) - 1) // b.v, bits)),
+                mx = (1 << bits) - 1
+                self.solver.add(z3.ULT(r, d), z3.ULE(q, z3.BitVecVal(mx // b.v, bits)),
+                                z3.ULE(r, z3.BitVecVal(mx, bits) - q * d),     # q*d + r does not wrap
                                 x == q * d + r)
                 qr = (q, r)
                 self._divcache[key] = qr
@@ -1082,6 +1084,11 @@ class Executor:
             raise Unsupported('no semantics for call %s (receiver %s)' % (raw, rb))
         # inherent method / free function
         if c.typebase:
+            r0 = args[0] if args else None
+            while isinstance(r0, Ref):
+                r0 = r0.get()
+            if isinstance(r0, PyObj) and r0.name == c.typebase:
+                return r0.trait_call(self, c.typebase, c.method, args)
             f = self.find_impl(None, c.typebase, c.method, args, c.typath)
             if f is not None:
                 return self.call_function(f, args)
